@@ -3,7 +3,7 @@ C01 — integer expressions have the C11 value and the C11 type.
 
 Property theorems only (definitions and helper lemmas: Model/C01Expr, Model/C01ExprJ, Model/X86Jump, Lemmas/C01Lemmas,
 C01OpLemmas, C01ArithLemmas, C01Select, C01MemLemmas, C01Compose, C01Frame, C01Value, C01Effects, C01Machine, C01EffectsValue,
-C01Pointer, C01Jump, C01JumpMachine, C01JumpCompile, C01EffectsFull, C01ValueFull, C01LabelText).
+C01Pointer, C01PointerAssign, C01Jump, C01JumpMachine, C01JumpCompile, C01EffectsFull, C01ValueFull, C01LabelText).
 
 Objects:
 * `Gen.CommonType.getCommonType`, `opRule`  — regenerated from type.c on every check (translator);
@@ -29,6 +29,7 @@ import ChibiVerif.Lemmas.C01Compose
 import ChibiVerif.Lemmas.C01Value
 import ChibiVerif.Lemmas.C01EffectsValue
 import ChibiVerif.Lemmas.C01Pointer
+import ChibiVerif.Lemmas.C01PointerAssign
 import ChibiVerif.Lemmas.C01ValueFull
 import ChibiVerif.Lemmas.C01LabelText
 
@@ -345,8 +346,8 @@ theorem C01_value_full (σ : Env) (off toff : Nat → Int) (e : E) (t : ITy) (co
       (∀ a : BitVec 64, (m.get .rsp).toNat ≤ a.toNat → ¬ inVar σ.tys off (m.get .rbp) (wr e) a →
         ¬ inTmp toff (m.get .rbp) 0 K a → m'.mem a = m.mem a) := by
   have fc := compileJ_facts σ.tys off toff e 0 c0 t code K c1 hc
-  obtain ⟨hty, hE⟩ := value_j off toff K e σ t code v σ' 0 K c0 c1 hc hv hnc (Nat.le_refl _)
-  obtain ⟨m', hrun, hrep, hH, hu⟩ := hE m (depthJ e) _ hf.2.1 (Nat.le_refl _) hf.1 (Nat.le_refl _) hf.2.2
+  obtain ⟨hty, hE⟩ := value_j (fun _ => True) off toff K e σ t code v σ' 0 K c0 c1 hc hv hnc (Nat.le_refl _)
+  obtain ⟨m', hrun, hrep, hH, hu⟩ := hE m (depthJ e) _ trivial hf.2.1 (Nat.le_refl _) hf.1 (Nat.le_refl _) hf.2.2
   refine ⟨m', hrun.runJ fc.nodup, hrep, fc.ty σ rfl, hu.rsp, hu.rbp, ?_, hu.mem⟩
   exact ⟨by rw [hu.rsp]; exact hf.1, by rw [hty, hu.rsp, hu.rbp]; exact hf.2.1, hH⟩
 
@@ -371,8 +372,8 @@ theorem C01_value_full_embedded (σ : Env) (off toff : Nat → Int) (e : E) (t :
       FrameX σ' off toff K (depthJ e) m' ∧
       (∀ a : BitVec 64, (m.get .rsp).toNat ≤ a.toNat → ¬ inVar σ.tys off (m.get .rbp) (wr e) a →
         ¬ inTmp toff (m.get .rbp) 0 K a → m'.mem a = m.mem a) := by
-  obtain ⟨hty, hE⟩ := value_j off toff K e σ t code v σ' 0 K c0 c1 hc hv hnc (Nat.le_refl _)
-  obtain ⟨m', hrun, hrep, hH, hu⟩ := hE m (depthJ e) _ hf.2.1 (Nat.le_refl _) hf.1 (Nat.le_refl _) hf.2.2
+  obtain ⟨hty, hE⟩ := value_j (fun _ => True) off toff K e σ t code v σ' 0 K c0 c1 hc hv hnc (Nat.le_refl _)
+  obtain ⟨m', hrun, hrep, hH, hu⟩ := hE m (depthJ e) _ trivial hf.2.1 (Nat.le_refl _) hf.1 (Nat.le_refl _) hf.2.2
   obtain ⟨_, n, hn, hs⟩ := hrun _ _ (At_mid pre code post) hfresh
   refine ⟨m', n, by omega, hs, hrep, hu.rsp, hu.rbp, ?_, hu.mem⟩
   exact ⟨by rw [hu.rsp]; exact hf.1, by rw [hty, hu.rsp, hu.rbp]; exact hf.2.1, hH⟩
@@ -444,6 +445,57 @@ example : ∃ (σ : Env) (m : State) (ci : List Ins), compileE σ.tys exOff (.va
     FrameHolds σ exOff (depthE (.var 1) + 2) m ∧
     BitVec.ofInt 64 (0x100000000000 + 600000000 * 4) = 0x10008f0d1800#64 :=
   ⟨ptrEnv, ptrState, _, rfl, rfl, rfl, rfl, ptrFrame, by decide⟩
+
+/-- **`p += e`, `p -= e`** (and `++p`, `--p`: `e` the literal 1) — parse.c `to_assign` over `new_add` / `new_sub`:
+    `tmp = &p, *tmp = *tmp ± e * sizeof *p` through the hidden pointer temporary.  For every index type and value, every
+    element size, ANY index expression `compileX` handles (side effects included; evaluated once, before `*tmp` is read), the
+    pointer held in the 8-byte variable `j` (value `pv` after the index has been evaluated): the code runs, leaves in `%rax` and
+    stores into `j` the C11 address `pv ± vi * size` (C11 6.5.16.2 with 6.5.6p8; modulo 2^64), and the frame holds the store
+    after the index expression with `j` updated; nothing else at or above `%rsp` changes.  The instruction text of all these
+    forms is tied to chibicc by checklib/C01.py leg b3. -/
+theorem C01_ptr_opassign (isSub : Bool) (σ : Env) (off toff : Nat → Int) (ei : E) (ti : ITy) (ci : List Ins) (K : Nat) (vi : Int)
+    (σ1 : Env) (j : Nat) (pv size : Int) (m : State)
+    (hci : compileX σ.tys off toff 0 ei = some (ti, ci, K)) (hvi : evalE σ ei = some (vi, σ1)) (hnc : noConflict ei = true)
+    (hj : σ.tys[j]? = some .u64) (hpv : σ1.vals[j]? = some pv) (hs : ITy.i64.inRange size)
+    (hf : FrameX σ off toff (K + 1) (depthX ei + 2) m) :
+    ∃ m', X86.run (ptrOpAssignCode isSub ti size (off j) (toff K) ci) m = some m' ∧
+      m'.get .rax = BitVec.ofInt 64 (ptrStep isSub pv vi size) ∧ m'.get .rsp = m.get .rsp ∧ m'.get .rbp = m.get .rbp ∧
+      FrameX (σ1.set j (ptrStep isSub pv vi size % 18446744073709551616)) off toff (K + 1) (depthX ei + 2) m' ∧
+      (∀ a : BitVec 64, (m.get .rsp).toNat ≤ a.toNat → ¬ inVar σ.tys off (m.get .rbp) (j :: wr ei) a →
+        ¬ inTmp toff (m.get .rbp) 0 (K + 1) a → m'.mem a = m.mem a) := by
+  have E := value_x off toff (K + 1) ei σ ti ci vi σ1 0 K hci hvi hnc (by omega)
+  obtain ⟨hty, hE⟩ := EvX.ptr_opassign isSub ti size vi pv hs hj E hpv (Nat.zero_le _) (by omega)
+  obtain ⟨m', hrun, hrep, hH, hu⟩ := hE m (depthX ei + 2) _ hf.2.1 (Nat.le_refl _) hf.1 (Nat.le_refl _) hf.2.2
+  refine ⟨m', hrun, hrep, hu.rsp, hu.rbp, ?_, hu.mem⟩
+  exact ⟨by rw [hu.rsp]; exact hf.1, by rw [hty, hu.rsp, hu.rbp]; exact hf.2.1, hH⟩
+
+/-- non-vacuity: `int *p = (int *)0x100000000000; int i = 600000000; p += i` in a concrete frame with one hidden temporary:
+    the hypotheses hold, and the new pointer is `p + 2400000000` -/
+example : compileX ptrEnv.tys exOff ptrToff 0 (.var 1) = some (.i32, iLea (exOff 1) :: loadSeq .i32, 0) ∧
+    evalE ptrEnv (.var 1) = some (600000000, ptrEnv) ∧ ptrEnv.tys[0]? = some .u64 ∧ ptrEnv.vals[0]? = some 0x100000000000 ∧
+    FrameX ptrEnv exOff ptrToff (0 + 1) (depthX (.var 1) + 2) ptrState ∧
+    ptrStep false 0x100000000000 600000000 4 = 0x10008f0d1800 :=
+  ⟨rfl, rfl, rfl, rfl, ⟨by decide, ptrFrameX.2.1, ptrFrameX.2.2⟩, by decide⟩
+
+/-- `++p` / `--p` are `p += 1` / `p -= 1` with the literal `1` as index -/
+example (tys : List ITy) (off toff : Nat → Int) : compileX tys off toff 0 (.lit .i32 1) = some (.i32, [iMovImm 1], 0) := rfl
+
+/-- **`p++`, `p--`** — parse.c `new_inc_dec`: `(T*)((p += ±1) + ∓1)`: the value of the expression is the old pointer `pv`, the
+    variable receives `pv ± sizeof *p` (C11 6.5.2.4p2, modulo 2^64); one hidden temporary, three stack slots. -/
+theorem C01_ptr_postfix (isDec : Bool) (σ : Env) (off toff : Nat → Int) (j : Nat) (pv size : Int) (m : State)
+    (hj : σ.tys[j]? = some .u64) (hpv : σ.vals[j]? = some pv) (hs : ITy.i64.inRange size) (hf : FrameX σ off toff 1 3 m) :
+    ∃ m', X86.run (ptrPostCode isDec size (off j) (toff 0)) m = some m' ∧ m'.get .rax = BitVec.ofInt 64 pv ∧
+      m'.get .rsp = m.get .rsp ∧ m'.get .rbp = m.get .rbp ∧
+      FrameX (σ.set j ((if isDec then pv - size else pv + size) % 18446744073709551616)) off toff 1 3 m' ∧
+      (∀ a : BitVec 64, (m.get .rsp).toNat ≤ a.toNat → ¬ inVar σ.tys off (m.get .rbp) [j] a →
+        ¬ inTmp toff (m.get .rbp) 0 1 a → m'.mem a = m.mem a) := by
+  obtain ⟨hty, hE⟩ := EvX.ptr_postfix (off := off) (toff := toff) (K := 1) (k0 := 0) isDec size pv hs hj hpv (by omega)
+  obtain ⟨m', hrun, hrep, hH, hu⟩ := hE m 3 _ hf.2.1 (Nat.le_refl _) hf.1 (Nat.le_refl _) hf.2.2
+  refine ⟨m', hrun, hrep, hu.rsp, hu.rbp, ?_, hu.mem⟩
+  exact ⟨by rw [hu.rsp]; exact hf.1, by rw [hty, hu.rsp, hu.rbp]; exact hf.2.1, hH⟩
+
+example : ptrEnv.tys[0]? = some .u64 ∧ ptrEnv.vals[0]? = some 0x100000000000 ∧ ITy.i64.inRange 4 ∧
+    FrameX ptrEnv exOff ptrToff 1 3 ptrState := ⟨rfl, rfl, by decide, ptrFrameX⟩
 
 /-- one step on a value already in `%rax` (the fragment proved before `C01_value`; kept, now a special case): a leaf
     followed by any chain of casts and unary operators is `C01_load` / `C01_cast` / `C01_unary_full` / `C01_lognot`
